@@ -7,6 +7,7 @@ mod common;
 mod myresp;
 mod conn;
 
+mod c04;
 mod c15;
 
 #[global_allocator]
@@ -23,6 +24,8 @@ fn main() {
     common::quiet_panics();
     match sub.as_str() {
         "noop" => {}
+        "c04-pipeline" => c04::pipeline_leg(&args),
+        "c04-malformed" => c04::malformed_leg(&args),
         "c15-parse" => c15::parse_leg(&args),
         "c15-frag" => c15::frag_leg(&args),
         "c15-reply" => c15::reply_leg(&args),
